@@ -1552,6 +1552,7 @@ def rule_no_python_division_by_a_vanishing_root(eng, rep, rule="C07-14.no-python
     the branches of tests that exclude zero."""
     from .common import expand_locals
     reach = eng.reachable_from_solve()
+    _defaults, typed = param_registry(eng)
     POSITIVE_DATA = ("nsamples",)         # sample counts are >= 1 wherever a point is stored (C17-3)
     ndiv = nflag = 0
     for fid in sorted(reach):
@@ -1578,6 +1579,8 @@ def rule_no_python_division_by_a_vanishing_root(eng, rep, rule="C07-14.no-python
                     return True
                 if isinstance(f, ast.Name) and f.id in ("abs", "max", "min") and e.args:
                     return all(is_py(a, at, depth) for a in e.args)
+                if param_key(eng, e) is not None:
+                    return True        # parameter values are Python numbers (type-checked by ParameterList)
                 return False
             if isinstance(e, ast.Name) and depth > 0:
                 try:
@@ -1664,6 +1667,20 @@ def rule_no_python_division_by_a_vanishing_root(eng, rep, rule="C07-14.no-python
                         break
             elif can_vanish(den):
                 bad_def = den
+            # a parameter as denominator: its documented range must exclude zero
+            pk = den
+            while isinstance(pk, ast.Call) and isinstance(pk.func, ast.Name) and pk.func.id in ("float", "int") and pk.args:
+                pk = pk.args[0]
+            key = param_key(eng, pk) if isinstance(pk, ast.Call) else None
+            if key is not None and bad_def is None:
+                tup = typed.get(key)
+                lo = const_value(tup.elts[2]) if tup is not None and len(tup.elts) == 4 else None
+                if lo is None or lo <= 0:
+                    nflag += 1
+                    rep.bad(rule, site, "%s|python-division-by-parameter|%s" % (fid, key),
+                            "`%s` divides Python numbers by the parameter %s, whose accepted range starts at %s: the value 0 passes check_all_params and ZeroDivisionError escapes from solve"
+                            % (short(node, 50), key, lo))
+                    continue
             if bad_def is not None:
                 nflag += 1
                 rep.bad(rule, site, "%s|python-division-by-vanishing-root|%s" % (fid, short(den, 25)),
